@@ -78,6 +78,7 @@ type Engine struct {
 	dynType      map[string]types.Type
 	arrayMode    bool
 	usedNilChan  bool
+	lastAnyArgs  []Value
 	globalErrs   map[string]*Term
 	extraStreams []*Term
 }
